@@ -30,7 +30,7 @@ mod h {
     use crate::basic::ifb::sv::{self as ifb, IfbExecMsg, IfbQueryMsg, IfbSudoMsg};
     use crate::names_harness;
     use crate::shape_h::*;
-    use support::doc::{decode, E, V};
+    use support::doc::{decode, num, Msg, NameSc, Obj, Pair, TopNull, TopStr, E, EMPTY0};
     use support::rec::record;
 
     // ---- hand-written handler table of corpus `basic` (see corpus/basic.rs) -------------------
@@ -172,7 +172,7 @@ mod h {
     /// One harness per (handler, set of body layouts); every arm calls with a *constant* layout
     /// (concrete sizes).  `core` = ordered, permuted, one missing, duplicated; `rest` = the others.
     macro_rules! dec_harness {
-        ($name:ident, $ty:ty, $h:expr, $flat:literal, [$($ix:literal),+]) => {
+        ($name:ident, $ty:ty, $h:expr, $flat:literal, [$($ix:literal => $l:ident),+]) => {
             #[kani::proof]
             #[kani::unwind(9)]
             fn $name() {
@@ -182,8 +182,14 @@ mod h {
                 let mut acc = false;
                 $(
                     if sel == $ix {
-                        decode_case::<$ty>(&$h, $flat, LAYOUTS[$ix], &kv);
-                        acc = body_accept(&$h, LAYOUTS[$ix], &kv).is_some();
+                        decode_case::<$ty, { $l.len() }>(&$h, $flat, $l, &kv);
+                        let mut vals = [0u64; 3];
+                        let mut j = 0;
+                        while j < $l.len() {
+                            vals[j] = if is_bool_arg(&$h, $l[j]) { kv[j] & 1 } else { kv[j] };
+                            j += 1;
+                        }
+                        acc = body_accept(&$h, &$l, &vals).is_some();
                         hit = true;
                     }
                 )+
@@ -194,21 +200,21 @@ mod h {
         };
     }
     // quick tier: small enums, core layouts
-    dec_harness!(dec_q_two_core, QueryMsg, H_Q_TWO, false, [1, 2, 3, 5]);
-    dec_harness!(dec_tock_core, SudoMsg, H_TOCK, false, [7, 0, 6]);
-    dec_harness!(dec_ib_x_core, IfbExecMsg, H_IB_X, false, [9, 0, 1]);
-    dec_harness!(dec_inst, InstantiateMsg, H_INST, true, [0, 1, 2, 3, 4, 5, 6, 7, 8, 9]);
-    dec_harness!(dec_migr, MigrateMsg, H_MIGR, true, [0, 1, 2, 3, 4, 5, 6, 7, 8, 9]);
+    dec_harness!(dec_q_two_core, QueryMsg, H_Q_TWO, false, [1 => L1, 2 => L2, 3 => L3, 5 => L5]);
+    dec_harness!(dec_tock_core, SudoMsg, H_TOCK, false, [7 => L7, 0 => L0, 6 => L6]);
+    dec_harness!(dec_ib_x_core, IfbExecMsg, H_IB_X, false, [9 => L9, 0 => L0, 1 => L1]);
+    dec_harness!(dec_inst, InstantiateMsg, H_INST, true, [0 => L0, 1 => L1, 2 => L2, 3 => L3, 4 => L4, 5 => L5, 6 => L6, 7 => L7, 8 => L8, 9 => L9]);
+    dec_harness!(dec_migr, MigrateMsg, H_MIGR, true, [0 => L0, 1 => L1, 2 => L2, 3 => L3, 4 => L4, 5 => L5, 6 => L6, 7 => L7, 8 => L8, 9 => L9]);
     // thorough tier: the 5-variant ExecMsg and the remaining layouts
-    dec_harness!(dec_foo_bar_core, ExecMsg, H_FOO_BAR, false, [1, 2, 3, 5]);
-    dec_harness!(dec_foo_bar_rest, ExecMsg, H_FOO_BAR, false, [0, 4, 6, 7, 8, 9]);
-    dec_harness!(dec_foo1_core, ExecMsg, H_FOO1, false, [6, 0, 7]);
-    dec_harness!(dec_foo1_rest, ExecMsg, H_FOO1, false, [1, 2, 3, 4, 5, 8, 9]);
-    dec_harness!(dec_tick_core, ExecMsg, H_TICK, false, [7, 0, 6]);
-    dec_harness!(dec_q_two_rest, QueryMsg, H_Q_TWO, false, [0, 4, 6, 7, 8, 9]);
-    dec_harness!(dec_tock_rest, SudoMsg, H_TOCK, false, [1, 2, 3, 4, 5, 8, 9]);
-    dec_harness!(dec_ia_q, IfaQueryMsg, H_IA_Q, false, [8, 0, 1, 6]);
-    dec_harness!(dec_ib_x_rest, IfbExecMsg, H_IB_X, false, [2, 3, 4, 5, 6, 7, 8]);
+    dec_harness!(dec_foo_bar_core, ExecMsg, H_FOO_BAR, false, [1 => L1, 2 => L2, 3 => L3, 5 => L5]);
+    dec_harness!(dec_foo_bar_rest, ExecMsg, H_FOO_BAR, false, [0 => L0, 4 => L4, 6 => L6, 7 => L7, 8 => L8, 9 => L9]);
+    dec_harness!(dec_foo1_core, ExecMsg, H_FOO1, false, [6 => L6, 0 => L0, 7 => L7]);
+    dec_harness!(dec_foo1_rest, ExecMsg, H_FOO1, false, [1 => L1, 2 => L2, 3 => L3, 4 => L4, 5 => L5, 8 => L8, 9 => L9]);
+    dec_harness!(dec_tick_core, ExecMsg, H_TICK, false, [7 => L7, 0 => L0, 6 => L6]);
+    dec_harness!(dec_q_two_rest, QueryMsg, H_Q_TWO, false, [0 => L0, 4 => L4, 6 => L6, 7 => L7, 8 => L8, 9 => L9]);
+    dec_harness!(dec_tock_rest, SudoMsg, H_TOCK, false, [1 => L1, 2 => L2, 3 => L3, 4 => L4, 5 => L5, 8 => L8, 9 => L9]);
+    dec_harness!(dec_ia_q, IfaQueryMsg, H_IA_Q, false, [8 => L8, 0 => L0, 1 => L1, 6 => L6]);
+    dec_harness!(dec_ib_x_rest, IfbExecMsg, H_IB_X, false, [2 => L2, 3 => L3, 4 => L4, 5 => L5, 6 => L6, 7 => L7, 8 => L8]);
 
     /// Handlers without arguments accept every body layout (unknown keys are ignored).
     #[kani::proof]
@@ -216,9 +222,9 @@ mod h {
     fn dec_ping() {
         let kv: [u64; 3] = kani::any();
         if kani::any() {
-            decode_case::<ExecMsg>(&H_PING, false, LAYOUTS[0], &kv);
+            decode_case::<ExecMsg, 0>(&H_PING, false, L0, &kv);
         } else {
-            decode_case::<ExecMsg>(&H_PING, false, LAYOUTS[1], &kv);
+            decode_case::<ExecMsg, 2>(&H_PING, false, L1, &kv);
         }
         kani::cover!(true);
     }
@@ -247,16 +253,17 @@ mod h {
     #[kani::unwind(9)]
     fn top_exec() {
         let sel: u8 = kani::any();
-        kani::assume(sel < 5);
+        kani::assume(sel < 6);
         let x: u64 = kani::any();
-        let body = [("x", V::U64(x))];
-        let two = [("foo1", V::Map(&body)), ("ping", V::Map(&[]))];
+        let foo1 = Msg { name: "foo1", body: Obj { keys: ["x"], vals: [num(x)] } };
+        let ping = Msg { name: "ping", body: EMPTY0 };
         let r: Result<ExecMsg, E> = match sel {
-            0 => decode(V::Str("ping")),
-            1 => decode(V::Null),
-            2 => decode(V::U64(x)),
-            3 => decode(V::Map(&[])),
-            _ => decode(V::Map(&two)),
+            0 => decode(TopStr("ping")),
+            1 => decode(TopNull),
+            2 => decode(num(x)),
+            3 => decode(EMPTY0),
+            4 => decode(Pair { first: foo1, second: ping }),
+            _ => decode(NameSc { name: "foo1", sc: num(x) }),
         };
         assert!(r.is_err(), "not a one-entry object with an object body");
         kani::cover!(sel == 4);
